@@ -7,6 +7,8 @@ import (
 
 	"gosim/hb"
 	"gosim/rng"
+
+	simrt "github.com/tsuna/gohbase/verifsimrt"
 )
 
 // C13 — cancellation is honoured promptly in every state.
@@ -131,7 +133,7 @@ func genC13(seed uint64, r *rng.Rand) *Plan {
 
 func waitState(site string) string {
 	switch {
-	case strings.Contains(site, "simnet:Write"), strings.Contains(site, "region/client.go:send:lock"):
+	case strings.Contains(site, "simnet:Write"):
 		return "blocked-in-write"
 	case strings.Contains(site, "simnet:Dial"):
 		return "dialling"
@@ -226,8 +228,21 @@ func driveC13(w *World) string {
 			if r.ctx.Err() == nil {
 				what, oracle = "the context of one of its calls (distinct from the batch context)", "batch-ignores-call-context"
 			}
-			w.pending = append(w.pending, w.viol("C13", oracle, "task %d op %d (%s): %s ended at step %d while %s, but the call has not returned although every goroutine ran until nothing was runnable (no time, no network needed): blocked at %s",
-				r.Task, r.Idx, r.Op.Kind, what, r.CancelStep, waitState(r.CancelSite), where))
+			// where the call is stuck now (not where it was when the context
+			// ended: it may have run on to the writer lock since). Stuck in
+			// conn.Write, or on the writer lock while its holder is stuck in
+			// conn.Write, is the known finding S6.
+			stuck := waitState(where)
+			if strings.Contains(where, "region/client.go:send:lock") {
+				stuck = "other:" + where
+				for _, g := range simrt.Live() {
+					if strings.HasPrefix(g.Site, "simnet:Write") && !g.Parked() {
+						stuck = "blocked-in-write"
+					}
+				}
+			}
+			w.pending = append(w.pending, w.viol("C13", oracle, "task %d op %d (%s): %s ended at step %d while %s, but the call has not returned although every goroutine ran until nothing was runnable (no time, no network needed): now %s, blocked at %s",
+				r.Task, r.Idx, r.Op.Kind, what, r.CancelStep, waitState(r.CancelSite), stuck, where))
 			// release it for the rest of the run
 			r.cancel()
 		}
